@@ -157,7 +157,8 @@ where
 
                     move || {
                         let r = copy(&mut client_reader, &mut service_writer);
-                        tx_end.send(1).expect("channel should be open");
+                        // the receiver is gone when the other direction ended with an error
+                        let _ = tx_end.send(1);
                         r
                     }
                 });
@@ -168,7 +169,7 @@ where
 
                     move || {
                         let r = copy(&mut service_reader, &mut client_writer);
-                        tx_end.send(2).expect("channel should be open");
+                        let _ = tx_end.send(2);
                         r
                     }
                 });
@@ -301,7 +302,9 @@ where
 
             move || {
                 let r = child.wait();
-                tx_end.send(3).expect("channel should be open");
+                // nobody may be listening any more: the bridge returns once both copy
+                // directions have ended, which can be before the child has exited
+                let _ = tx_end.send(3);
                 r
             }
         })
